@@ -26,7 +26,8 @@ const schemaText = `directive @goField(forceResolver: Boolean, name: String, omi
 enum Color { RED GREEN BLUE }
 scalar Fragile
 input Inner { n: Int s: String = "dflt" req: Int! }
-input In { a: Int b: String inner: Inner list: [Int!] color: Color = GREEN wd: Int = 7 nested: [[Int!]!] flag: Boolean frs: [Fragile!] }
+input Pg { lim: Int! = 10 off: Int = 0 }
+input In { a: Int b: String inner: Inner list: [Int!] color: Color = GREEN wd: Int = 7 nested: [[Int!]!] flag: Boolean frs: [Fragile!] z0: Int = 0 zb: Boolean = false zs: String = "" zl: [Int!] = [] pg: Pg = {} pgs: Pg! = {} }
 type Query {
   f(i: Int, s: String = "d", req: Int!, l: [Int], ll: [[Int!]!], in: In, ins: [In!], c: Color, id: ID, b: Boolean, fl: [Fragile!], fll: [[Fragile!]!]): String
 }
@@ -117,7 +118,7 @@ func ivalCoq(v any) string {
 
 func ischemaCoq(omittable bool) string {
 	var items []string
-	for _, n := range []string{"Color", "Inner", "In"} {
+	for _, n := range []string{"Color", "Inner", "Pg", "In"} {
 		d := schema.Types[n]
 		switch d.Kind {
 		case ast.Enum:
